@@ -21,7 +21,7 @@ fn template_of(case: &Value) -> Result<tir::Tx, Value> {
         f => {
             let e = lang::front_event(&f);
             let outcome = if e["outcome"] == "panic" { "panic" } else { "err" };
-            Err(json!({"ev": "Stage", "name": "front", "outcome": outcome, "kind": e["outcome"], "site": e["site"], "msg": e["msg"]}))
+            Err(json!({"ev": "Stage", "name": "front", "outcome": outcome, "kind": e["outcome"], "site": e["site"].as_str().unwrap_or(""), "msg": e["msg"].as_str().unwrap_or("")}))
         }
     }
 }
